@@ -362,3 +362,61 @@ def decl_case(rng, k):
     # declarations of one kind must not repeat verbatim (type Config twice does not matter to the parser)
     src = head + "\n\n".join(decls) + "\n"
     return ("decl:%s%s#%d" % (name, "+imports" if imp.strip() else "", k), patch.encode(), src.encode(), {"family": "decl:" + name})
+
+
+# ---------------------------------------------------------------- hand-written shapes outside the generated families
+# (name, patch, file): containers, for/range headers, field lists, labels, generics, methods, select/switch clauses
+EXTRA_CASES = [
+    ("for-dots-body", "@@\n@@\n for ... {\n-  foo()\n+  bar()\n   ...\n }\n",
+     "package p\n\nfunc h() {\n\tfor i := 0; i < n; i++ {\n\t\tfoo()\n\t\trest()\n\t}\n\tfor k, v := range m {\n\t\tfoo()\n\t}\n\tfor {\n\t\tother()\n\t\tfoo()\n\t}\n\tfor cond() {\n\t\tfoo()\n\t}\n\tfor range ch {\n\t\tfoo()\n\t\tfoo()\n\t}\n\tif ok {\n\t\tfoo()\n\t}\n}\n"),
+    ("for-dots-mv", "@@\nvar x expression\n@@\n for ... {\n-  use(x)\n+  used(x, x)\n }\n",
+     "package p\n\nfunc h() {\n\tfor i := range xs {\n\t\tuse(i)\n\t}\n\tfor _, v := range ys {\n\t\tuse(v + 1)\n\t}\n\tfor j := 0; j < 3; j++ {\n\t\tuse(j)\n\t\tmore()\n\t}\n\tfor {\n\t\tuse(f())\n\t}\n}\n"),
+    ("range-header", "@@\nvar k, v identifier\nvar m expression\n@@\n-for k, v := range m {\n+for v, k := range swap(m) {\n   ...\n }\n",
+     "package p\n\nfunc h() {\n\tfor a, b := range table {\n\t\tuse(a, b)\n\t}\n\tfor a := range table {\n\t\tuse(a)\n\t}\n\tfor i, c := range pkg.Items() {\n\t\tuse(c)\n\t\tuse(i)\n\t}\n}\n"),
+    ("case-clause", "@@\nvar x expression\n@@\n-handle(x)\n+handled(x)\n+log(x)\n",
+     "package p\n\nfunc h(v int) {\n\tswitch v {\n\tcase 1:\n\t\thandle(v)\n\t\tnext()\n\tcase 2, 3:\n\t\tprev()\n\t\thandle(v + 1)\n\tdefault:\n\t\thandle(0)\n\t}\n\tselect {\n\tcase m := <-ch:\n\t\thandle(m)\n\tcase ch2 <- 1:\n\t\tother()\n\t\thandle(2)\n\tdefault:\n\t}\n}\n"),
+    ("case-list", "@@\nvar x expression\n@@\n-case legacy(x):\n+case modern(x):\n",
+     "package p\n\nfunc h(v int) {\n\tswitch {\n\tcase legacy(v):\n\t\ta()\n\tcase other(v), legacy(1):\n\t\tb()\n\t}\n}\n"),
+    ("label-stmt", "@@\nvar l identifier\n@@\n l:\n for {\n-  break l\n+  return\n }\n",
+     "package p\n\nfunc h() {\nouter:\n\tfor {\n\t\tbreak outer\n\t}\ninner:\n\tfor {\n\t\tbreak other\n\t}\n}\n"),
+    ("params-dots", "@@\nvar f identifier\n@@\n-func f(ctx Context, ...) error {\n+func f(ctx Context, ...) (int, error) {\n   ...\n }\n",
+     "package p\n\nfunc a(ctx Context, x int, y string) error {\n\treturn nil\n}\n\nfunc b(ctx Context) error {\n\treturn nil\n}\n\nfunc c(x int, ctx Context) error {\n\treturn nil\n}\n\nfunc (r R) d(ctx Context, z ...int) error {\n\treturn nil\n}\n"),
+    ("results-dots", "@@\nvar f identifier\n@@\n-func f() (..., error) {\n+func f() (..., err error) {\n   ...\n }\n",
+     "package p\n\nfunc a() (int, error) {\n\treturn 0, nil\n}\n\nfunc b() error {\n\treturn nil\n}\n\nfunc c() (int, string, error) {\n\treturn 0, \"\", nil\n}\n\nfunc d() (int, bool) {\n\treturn 0, false\n}\n"),
+    ("struct-fields-dots", "@@\n@@\n type Config struct {\n   ...\n-  Debug bool\n   ...\n }\n",
+     "package p\n\ntype Config struct {\n\tName  string\n\tDebug bool\n\tLevel int\n}\n\ntype Other struct {\n\tDebug bool\n}\n\nfunc h() {\n\ttype Config struct {\n\t\tDebug bool\n\t}\n}\n"),
+    ("method-value", "@@\nvar x expression\nvar m identifier\n@@\n-x.m(ctx)\n+x.m(ctx, opts)\n",
+     "package p\n\nfunc h() {\n\ta.Run(ctx)\n\tb.c.Stop(ctx)\n\tf().Go(ctx)\n\tg(ctx)\n\ta.Run(ctx2)\n\tdefer p.Close(ctx)\n}\n"),
+    ("generic-call", "@@\nvar t, x expression\n@@\n-Map[t](x)\n+MapOf[t](x, nil)\n",
+     "package p\n\nfunc h() {\n\t_ = Map[int](xs)\n\t_ = Map[[]string](f())\n\t_ = Map(xs)\n\t_ = Map[int, string](xs)\n}\n"),
+    ("composite-fields", "@@\nvar x expression\n@@\n-Opts{Timeout: x}\n+Opts{Timeout: x, Retry: 3}\n",
+     "package p\n\nvar a = Opts{Timeout: 5}\nvar b = Opts{Timeout: 5, Retry: 1}\nvar c = &Opts{Timeout: d()}\nvar e = []Opts{{Timeout: 1}, {Retry: 2}}\n"),
+    ("if-else-chain", "@@\nvar x expression\n@@\n if x == nil {\n-  return nil\n+  return errNil\n }\n",
+     "package p\n\nfunc h(p *T) error {\n\tif p == nil {\n\t\treturn nil\n\t}\n\tif p.q == nil {\n\t\treturn nil\n\t} else {\n\t\tuse(p)\n\t}\n\tif p != nil {\n\t\treturn nil\n\t}\n\treturn nil\n}\n"),
+    ("defer-go", "@@\nvar f expression\n@@\n-go f()\n+go safely(f)\n",
+     "package p\n\nfunc h() {\n\tgo work()\n\tgo a.b()\n\tgo func() { x() }()\n\tgo work(1)\n\tdefer work()\n}\n"),
+    ("assign-ops", "@@\nvar x, y expression\n@@\n-x = x + y\n+x += y\n",
+     "package p\n\nfunc h() {\n\ta = a + 1\n\tb.c = b.c + d()\n\ta = b + 1\n\ta = a - 1\n\te[i] = e[i] + e[j]\n\te[i] = e[j] + e[i]\n}\n"),
+    ("chan-ops", "@@\nvar c, v expression\n@@\n-c <- v\n+send(c, v)\n",
+     "package p\n\nfunc h() {\n\tch <- 1\n\tx.out <- f()\n\tv := <-ch\n\t_ = v\n\tselect {\n\tcase ch <- 2:\n\t}\n}\n"),
+    ("type-switch", "@@\nvar x expression\nvar v identifier\n@@\n-switch v := x.(type) {\n+switch v := unwrap(x).(type) {\n   ...\n }\n",
+     "package p\n\nfunc h(e any) {\n\tswitch t := e.(type) {\n\tcase int:\n\t\tuse(t)\n\t}\n\tswitch e.(type) {\n\tcase string:\n\t}\n\tswitch u := f(e).(type) {\n\tdefault:\n\t\tuse(u)\n\t}\n}\n"),
+    ("func-lit", "@@\nvar x expression\n@@\n-func() error { return x }\n+func() error { return wrap(x) }\n",
+     "package p\n\nvar a = func() error { return nil }\nvar b = func() error { return f(1) }\nvar c = func() (error) { return nil }\nvar d = func(i int) error { return nil }\n\nfunc h() { run(func() error { return e }) }\n"),
+    ("unary-star", "@@\nvar p expression\n@@\n-*p = nil\n+reset(p)\n",
+     "package p\n\nfunc h() {\n\t*a = nil\n\t*b.c = nil\n\t**d = nil\n\ta = nil\n\t*a = 0\n}\n"),
+    ("slice-expr", "@@\nvar s, n expression\n@@\n-s[:n]\n+head(s, n)\n",
+     "package p\n\nfunc h() {\n\t_ = a[:3]\n\t_ = a[1:3]\n\t_ = a[:3:5]\n\t_ = b.c[:len(x)]\n\t_ = a[:]\n}\n"),
+    ("interface-decl", "@@\n@@\n type Doer interface {\n   ...\n-  Do() error\n+  Do(ctx Context) error\n   ...\n }\n",
+     "package p\n\ntype Doer interface {\n\tName() string\n\tDo() error\n}\n\ntype Doer2 interface {\n\tDo() error\n}\n\ntype Doer interface {\n\tDo() (error, bool)\n}\n"),
+    ("const-iota", "@@\nvar n identifier\n@@\n-const n = iota\n+const n int = iota\n",
+     "package p\n\nconst A = iota\n\nconst (\n\tB = iota\n\tC\n)\n\nfunc h() {\n\tconst D = iota\n\t_ = D\n}\n\nconst E = 1\n"),
+    ("return-multi", "@@\nvar x expression\n@@\n-return x, nil\n+return x, error(nil)\n",
+     "package p\n\nfunc h() (int, error) {\n\tif a {\n\t\treturn 1, nil\n\t}\n\tif b {\n\t\treturn f(), nil\n\t}\n\treturn 0, err\n}\n\nfunc g() (int, int, error) {\n\treturn 1, 2, nil\n}\n"),
+    ("block-nested", "@@\n@@\n-lock()\n ...\n-unlock()\n+withLock()\n",
+     "package p\n\nfunc h() {\n\tlock()\n\tif x {\n\t\tlock()\n\t\tinner()\n\t\tunlock()\n\t}\n\tunlock()\n\t{\n\t\tlock()\n\t\tunlock()\n\t}\n}\n"),
+]
+
+
+def extra_pairs():
+    return [("extra:" + n, p.encode(), f.encode(), {"family": "extra:" + n}) for n, p, f in EXTRA_CASES]
